@@ -110,7 +110,8 @@ class Ctx:
             "wall_s": round(wall, 2),
             "violations": len(self.violations),
         }
-        evdir = Path(os.environ.get("VERIF_EVIDENCE_DIR", VERIF / "evidence"))   # mutant runs write elsewhere
+        # mutant runs write elsewhere; extension checks (no listed property) keep their evidence apart
+        evdir = Path(os.environ.get("VERIF_EVIDENCE_DIR", VERIF / ("evidence_ext" if self.pid.startswith("X") else "evidence")))
         evdir.mkdir(exist_ok=True)
         with open(evdir / f"{self.pid}.json", "w") as fh:
             json.dump(ev, fh, indent=1, default=_js)
